@@ -177,28 +177,40 @@ static bool is_keyword(Token *tok) {
   return hashmap_get2(&map, tok->loc, tok->len);
 }
 
-static int read_escaped_char(char **new_pos, char *p) {
+// `size` is the size in bytes of an element of the literal the escape
+// stands in. The value of an octal or hexadecimal escape sequence must
+// be in the range of the unsigned type of that size (C11 6.4.4.4p9).
+static int read_escaped_char(char **new_pos, char *p, int size) {
+  uint64_t max = (1UL << (size * 8)) - 1;
+
   if ('0' <= *p && *p <= '7') {
     // Read an octal number.
-    int c = *p++ - '0';
+    char *start = p;
+    uint64_t c = *p++ - '0';
     if ('0' <= *p && *p <= '7') {
       c = (c << 3) + (*p++ - '0');
       if ('0' <= *p && *p <= '7')
         c = (c << 3) + (*p++ - '0');
     }
+    if (c > max)
+      error_at(start, "octal escape sequence out of range");
     *new_pos = p;
     return c;
   }
 
   if (*p == 'x') {
     // Read a hexadecimal number.
+    char *start = p;
     p++;
     if (!isxdigit(*p))
       error_at(p, "invalid hex escape sequence");
 
-    int c = 0;
-    for (; isxdigit(*p); p++)
+    uint64_t c = 0;
+    for (; isxdigit(*p); p++) {
       c = (c << 4) + from_hex(*p);
+      if (c > max)
+        error_at(start, "hex escape sequence out of range");
+    }
     *new_pos = p;
     return c;
   }
@@ -249,7 +261,7 @@ static Token *read_string_literal(char *start, char *quote) {
 
   for (char *p = quote + 1; p < end;) {
     if (*p == '\\')
-      buf[len++] = read_escaped_char(&p, p + 1);
+      buf[len++] = read_escaped_char(&p, p + 1, 1);
     else
       buf[len++] = *p++;
   }
@@ -274,7 +286,7 @@ static Token *read_utf16_string_literal(char *start, char *quote) {
 
   for (char *p = quote + 1; p < end;) {
     if (*p == '\\') {
-      buf[len++] = read_escaped_char(&p, p + 1);
+      buf[len++] = read_escaped_char(&p, p + 1, 2);
       continue;
     }
 
@@ -307,7 +319,7 @@ static Token *read_utf32_string_literal(char *start, char *quote, Type *ty) {
 
   for (char *p = quote + 1; p < end;) {
     if (*p == '\\')
-      buf[len++] = read_escaped_char(&p, p + 1);
+      buf[len++] = read_escaped_char(&p, p + 1, 4);
     else
       buf[len++] = decode_utf8(&p, p);
   }
@@ -323,9 +335,11 @@ static Token *read_char_literal(char *start, char *quote, Type *ty) {
   if (*p == '\0' || (*p == '\\' && p[1] == '\0'))
     error_at(start, "unclosed char literal");
 
+  // A constant without prefix has type int, but its escapes are
+  // in the range of unsigned char.
   int c;
   if (*p == '\\')
-    c = read_escaped_char(&p, p + 1);
+    c = read_escaped_char(&p, p + 1, (start == quote) ? 1 : ty->size);
   else
     c = decode_utf8(&p, p);
 
